@@ -37,8 +37,15 @@ def fr(x):
     return str(Fraction(x))
 
 
+_INTS = False       # per case: integral numbers are handed to the library as Python ints (yield 0, latency 0, tempo 2)
+
+
 def num(q):
+    if q == '-0':
+        return -0.0
     f = Fraction(q)
+    if _INTS and f.denominator == 1:
+        return int(f)
     v = float(f)
     assert Fraction(v) == f, q
     return v
@@ -132,6 +139,7 @@ class Run:
         self.share = share          # send the SAME Python list objects for equal element lists
         self.cache = {}
         self.mutations = []
+        self.top_bounds = []
         self.events = []
         self.schedule = []      # rt: ['top', now] | ['wake', rid, now]
         self.nrout = 0
@@ -187,6 +195,7 @@ class Run:
     def do_send(self, org, lat, es):
         T = main.current_tt._m_seconds if org is not None else None
         self.last_dgram = None
+        before = main.elapsed_time() if (org is None and self.mode == 'rt') else None
         try:
             obj = self.elems_obj(es)
             self.addr.send_bundle(lat_of(lat), *obj)
@@ -200,6 +209,10 @@ class Run:
             ok = False
         if org is None:
             T = main.main_tt._m_seconds     # the value send_bundle has just read
+            if before is not None:
+                # the main thread's time is refreshed from the physical clock at every read: it lies between two
+                # readings the harness takes itself (bounds that load cannot trip: the proxy is monotone)
+                self.top_bounds.append(['send', fr(before), fr(T), fr(main.elapsed_time())])
         res = self.stamped_of_last() if ok else None
         self.events.append(['send', org, fr(T), lat, es, res])
         return ok
@@ -230,8 +243,11 @@ class Run:
         self.nrout += 1
         rout = Routine(self.make_body(r, rid))
         T0 = main.current_tt._m_seconds if org is not None else None
+        before = main.elapsed_time() if (org is None and self.mode == 'rt') else None
         rout.play(clock, 0)
         T = T0 if org is not None else main.main_tt._m_seconds
+        if before is not None:
+            self.top_bounds.append(['play', fr(before), fr(T), fr(main.elapsed_time())])
         self.events.append(['play', org, rid, self.code_of(clock), fr(T)])
         return True
 
@@ -335,6 +351,8 @@ class Run:
 
 
 def run_nrt(prog, share=False):
+    global _INTS
+    _INTS = bool(prog.get('ints'))
     main.reset()
     run = Run(prog, 'nrt', share)
     run.top()
@@ -399,7 +417,15 @@ def rt_setup(seed):
         threading.Thread(target=_burner, daemon=True).start()
 
 
+def _no_wakeup_pending(clocks):
+    """call with the main lock held (so no task is running): True when no RT clock holds a wake-up for anything"""
+    qs = [SystemClock._task_queue, AppClock._scheduler.queue] + [c._task_queue for c in clocks]
+    return all(q.empty() for q in qs)
+
+
 def run_rt(prog):
+    global _INTS
+    _INTS = bool(prog.get('ints'))
     run = Run(prog, 'rt')
     iface = main._osc_interface
 
@@ -408,9 +434,14 @@ def run_rt(prog):
     iface._send = logging_send
     run.top()
     deadline = time.time() + 6.0
+    lost = False
     while time.time() < deadline:
         with run.lock:
             if run.nended >= run.nrout:
+                break
+            if _no_wakeup_pending(run.clocks):
+                # not a matter of time: routines have not ended and NO clock will ever wake them (load cannot cause this)
+                lost = True
                 break
         time.sleep(0.01)
     with run.lock:
@@ -420,7 +451,7 @@ def run_rt(prog):
         SystemClock.clear()
     for c in run.clocks:
         c.stop()
-    return {'events': run.events, 'schedule': run.schedule, 'errors': run.errors, 'completed': done,
+    return {'events': run.events, 'schedule': run.schedule, 'errors': run.errors, 'completed': done, 'lost_wakeup': lost, 'top_bounds': run.top_bounds,
             'offset': str(SystemClock._elapsed_osc_offset), 'nrout': run.nrout, 'nended': run.nended}
 
 
@@ -429,6 +460,8 @@ def run_probe(pr):
     """One scheduling operation issued from inside a routine that runs on clock pr['parent'], started at a
     non-zero time and advanced by a yield; see props/_kscript.py:probe_expected for the law."""
     from sc3.base.clock import defer
+    global _INTS
+    _INTS = bool(pr.get('ints'))
     if MODE == 'nrt':
         main.reset()
     lock = main._main_lock
@@ -472,6 +505,47 @@ def run_probe(pr):
             defer(f, num(pr['delta']), target)
         elif op == 'play':
             Routine(child).play(target, 0)
+        elif op == 'sched_abs':
+            at = (target.beats if isinstance(target, TempoClock) else main.current_tt._seconds) + num(pr['delta'])
+            target.sched_abs(at, f)
+        elif op == 'reads':
+            # every time-reading public method, from a LATE routine: all must answer from the thread's logical time
+            obs['reads'] = {'System.seconds': fr(SystemClock.seconds), 'System.beats': fr(SystemClock.beats),
+                            'App.seconds': fr(AppClock.seconds), 'clock.seconds': fr(clock.seconds)}
+            for j, tc in enumerate(clocks):
+                obs['reads']['T%d.beats' % j] = fr(tc.beats)
+                obs['reads']['T%d.seconds' % j] = fr(tc.seconds)
+                obs['reads']['T%d.next_time_on_grid' % j] = fr(tc.next_time_on_grid(1, 0))
+                obs['reads']['T%d.time_to_next_beat' % j] = fr(tc.time_to_next_beat(1))
+                obs['reads']['T%d.bar' % j] = fr(tc.bar())
+                obs['reads']['T%d.next_bar' % j] = fr(tc.next_bar())
+                obs['reads']['T%d.beat_in_bar' % j] = fr(tc.beat_in_bar())
+            obs['done'] = True
+        elif op == 'self_resched':
+            # the routine schedules ITSELF again during its own wake-up, then yields: one pending wake-up, the yield's
+            clock.sched(num(pr['delta']), inval[0])
+            obs['resumes'] = []
+            for _j in range(2):
+                yield num(pr['after'])
+                obs['resumes'].append(fr(main.current_tt._seconds))
+            obs['done'] = True
+        elif op == 'other_resched':
+            obs['resumes'] = []
+
+            def victim(inv):
+                obs['resumes'].append(fr(main.current_tt._seconds))
+                yield num(pr['after']) * 4
+                obs['resumes'].append(fr(main.current_tt._seconds))
+                yield num(pr['after'])
+                obs['resumes'].append(fr(main.current_tt._seconds))
+                obs['done'] = True
+            vr = Routine(victim)
+            vr.play(target, 0)
+            yield num(pr['adv'])
+            snap('at_resched', clock)
+            target.sched(num(pr['delta']), vr)          # replaces the victim's pending wake-up
+            if isinstance(target, TempoClock) and pr.get('val2'):
+                target.tempo = num(pr['val2'])          # ... and the clock is re-timed right after
         elif op == 'beats':
             clock.beats = num(pr['val'])
             snap('after_set', clock)
@@ -542,21 +616,45 @@ def run_alongside(pr):
     class Boom(Exception):
         pass
 
+    from sc3.base.stream import StopStream
+
     def ender(spec):
         kind = spec['kind']
-        if kind.startswith('routine'):
+        if kind in ('routine_end', 'routine_raise', 'nested_raise', 'nested_end'):
             def body(inval):
                 yield num(spec['delay'])
                 obs['enders_ran'] += 1
                 if kind == 'routine_raise':
                     raise Boom('script')
-                # routine_end: falls off the end -> StopStream inside the clock
+                if kind.startswith('nested'):
+                    def inner_body():
+                        if kind == 'nested_raise':
+                            raise Boom('inner')
+                        return
+                        yield 1
+                    try:
+                        Routine(inner_body).next()     # Routine.next exits by an exception inside another routine
+                    except (Boom, StopStream):
+                        pass
+                # falls off the end -> StopStream inside the clock
             return ('r', body)
+        if kind == 'routine_raise_first':
+            def body1(inval):
+                obs['enders_ran'] += 1
+                raise Boom('first step')
+                yield 1
+            return ('s', Routine(body1))              # raises at its FIRST step, scheduled with sched(delay, routine)
+        state = {'n': 0}
 
         def f():
             obs['enders_ran'] += 1
             if kind == 'func_raise':
                 raise Boom('script')
+            if kind == 'func_stop':
+                raise StopStream
+            if kind == 'func_num':
+                state['n'] += 1
+                return num('1/256') if state['n'] < 3 else None     # numeric return: re-scheduled twice
             return None
         return ('f', f)
 
@@ -583,6 +681,9 @@ def run_alongside(pr):
             with lock:
                 if obs['done'] >= len(pr['survivors']):
                     break
+                if _no_wakeup_pending(clocks):
+                    obs['lost_wakeup'] = True
+                    break
             time.sleep(0.01)
         time.sleep(0.02)
         with lock:
@@ -591,6 +692,10 @@ def run_alongside(pr):
         for c in clocks:
             c.stop()
     obs['completed'] = obs['done'] >= len(pr['survivors'])
+    # leaked state, observed from outside after everything ran
+    with lock:
+        obs['current_tt_is_main'] = main.current_tt is main.main_tt
+        obs['in_awake_call'] = bool(getattr(main, '_in_awake_call', False))
     return obs
 
 
@@ -661,6 +766,10 @@ def run_clump(pr):
     if pr['inside']:
         def body(inval):
             yield num(pr['start'])
+            if MODE == 'rt':
+                t_end = time.time() + 0.002          # the sender is late
+                while time.time() < t_end:
+                    pass
             do_send()
         with lock:
             Routine(body).play(SystemClock)
